@@ -29,7 +29,7 @@ def encHex (s : Str) : String :=
   let bytes := (String.ofList s).toUTF8
   String.ofList (bytes.toList.flatMap fun b => [hexDigit (b.toNat / 16), hexDigit (b.toNat % 16)])
 
-partial def decBytes : List Char → ByteArray → Option ByteArray
+def decBytes : List Char → ByteArray → Option ByteArray
   | [], acc => some acc
   | a :: b :: t, acc => do
     let x ← hexVal a; let y ← hexVal b
